@@ -7,6 +7,7 @@ import IncanModel.Driver.C10
 import IncanModel.Driver.C14
 import IncanModel.Driver.C15
 import IncanModel.Driver.C16
+import IncanModel.Driver.C17
 import IncanModel.Driver.C18
 import IncanModel.Driver.C19
 
@@ -23,6 +24,7 @@ def dispatch (line : String) : String :=
   | "c14" :: rest => handleC14 rest
   | "c15" :: rest => handleC15 rest
   | "c16" :: rest => handleC16 rest
+  | "c17" :: rest => handleC17 rest
   | "c18" :: rest => handleC18 rest
   | "c19" :: rest => handleC19 rest
   | "c11" :: rest => handleC19 rest
